@@ -27,7 +27,7 @@ Paths1 == << EPath(A), EPath(B), EPath(C), EPipe(EPath(A), EPath(B)), EPipe(EPat
              ETravArr(EPath(A), ECollect(EUnion(ELit(IntV(0)), ELit(IntV(2))))),
              ETravArr(EPath(A), ECollect(EUnion(ELit(IntV(1)), ELit(IntV(3))))), ETravArr(EPath(A), ECollect(EUnion(ELit(IntV(4)), ELit(IntV(-1))))),
              ETravArr(EPath(C), ECollect(EUnion(ELit(IntV(1)), ELit(IntV(0))))) >>
-Vals1 == << ELit(IntV(7)), ELit(StrV(B)), ELit(Null), ECollect(ELit(IntV(7))), EObject(ELit(StrV(C)), ELit(IntV(7))), EPath(B), EPipe(EPath(A), EPath(B)), EPath(A) >>
+Vals1 == << ELit(IntV(7)), ELit(StrV(B)), ELit(Null), ECollect(ELit(IntV(7))), EObject(ELit(StrV(C)), ELit(IntV(7))), EPath(B), EPipe(EPath(A), EPath(B)), EPath(A), ESelf >>
 Upd1 == << EBin("ADD", ESelf, ELit(IntV(1))), ECollect(ESelf), ELit(StrV(C)), ENul("LENGTH"), EBin("ADD", ESelf, ESelf), EUnion(ELit(IntV(7)), ELit(IntV(0))), EUn("SELECT", ELit(BoolV(FALSE))),
            EBin("MULTIPLY", ESelf, ELit(IntV(2))), EPath(A) >>
 Cmp1 == << ELit(IntV(1)), ELit(StrV(B)), ECollect(ELit(IntV(7))), EPath(B), ELit(NumV(3, 2)), EObject(ELit(StrV(C)), ELit(IntV(7))) >>
